@@ -9,6 +9,7 @@ from simlib import Rng, mkspec, random_sched, starve_each, sha12
 PROPERTY = "C04"
 LEVEL = "exploration"
 BUDGET = {"quick": 75, "thorough": 1500}
+MIN_CASES = {"quick": 2600}  # see checklib.Check: quick goes on to this many cases on a loaded machine (up to 3x its budget)
 RULE = ("cases: corpus commands (test/cases, as workload only), generated verb chains, early-exit/termination chains, "
         "tail -f arrival histories, --seed chains; each case = one staged reference run + N simulated runs of the real "
         "entrypoint.Main() under seeded schedules (policies random/rtb/rr/pct/starve-each/favor-each, select tie-breaks), "
